@@ -90,6 +90,10 @@ def run(ctx):
                    'calculator is not built on the walker\'s own string', construct='calculator string')
         for nm in names:
             v = kwarg(c, nm)
+            if v is None and nm in iparams:
+                ix = iparams.index(nm) - 1
+                if 0 <= ix < len(c.args):
+                    v = c.args[ix]
             ctx.decide('R20b', v is not None and is_self_attr(v, nm), w, c,
                        '%s forwarded under its own name' % nm,
                        'LineNumbersCalculator(%s=...) does not receive self.%s' % (nm, nm),
@@ -239,36 +243,67 @@ def _first_line_test(t, raw_nf):
 
 
 def _r20d(ctx, u, init):
-    """shape of the line-start table generator (decided on substituted yields per structural path)"""
+    """shape of the line-start table construction (decided on substituted emitted values per
+    structural path); two carriers are recognised: a generator (`yield x`, table =
+    list(gen(s))) and an accumulator list in __init__ itself (`acc.append(x)`, table = acc)"""
+    sparam = init.args.args[1].arg
     table = None
+    acc_form = None
     for st in iter_own(init):
         if isinstance(st, ast.Assign) and is_self_attr(st.targets[0]) and isinstance(st.value, ast.Call):
             inner = st.value
             if call_name(inner) in ('list', 'tuple', 'sorted') and inner.args and isinstance(inner.args[0], ast.Call):
                 table = (st, inner.args[0])
+        if isinstance(st, ast.Assign) and is_self_attr(st.targets[0]) and isinstance(st.value, ast.Name) and any(
+                isinstance(c_, ast.Call) and call_name(c_) == 'append' and call_recv(c_) is not None
+                and unparse(call_recv(c_)) == st.value.id for c_ in ast.walk(init)):
+            acc_form = (st, st.value.id)
     gens = dict((g.name, g) for g in ast.walk(init) if isinstance(g, ast.FunctionDef) and g is not init)
     gens.update((q, g) for q, g in u.functions.items() if '.' not in q)
-    if table is None or call_name(table[1]) not in gens:
-        ctx.unknown('R20d', u, init, 'line-start table is not built as list(<generator>(s))',
+    if table is not None and call_name(table[1]) in gens:
+        st, gcall = table
+        ctx.decide('R20d', len(gcall.args) == 1 and unparse(gcall.args[0]) == sparam, u, st,
+                   'table built from the calculator\'s own string', 'the line-start table is built from %s, not '
+                   'from the string given to the calculator' % short(gcall), construct='line-start table: source')
+        g = gens[call_name(gcall)]
+        xp = g.args.args[0].arg
+        body_stmts = g.body
+        is_emit = lambda n: isinstance(n, ast.Yield)
+        emit_types = (ast.Yield,)
+        emitted = lambda sub: sub.value
+        first_literal = None
+    elif acc_form is not None:
+        st, acc = acc_form
+        g = init
+        xp = sparam
+        body_stmts = init.body
+        is_emit = lambda n: isinstance(n, ast.Call) and call_name(n) == 'append' and call_recv(n) is not None \
+            and unparse(call_recv(n)) == acc
+        emit_types = (ast.Call,)
+        emitted = lambda sub: sub.args[0] if sub.args else ast.Constant(value=None)
+        ainit = [x for x in iter_own(init) if isinstance(x, ast.Assign) and any(
+            isinstance(t_, ast.Name) and t_.id == acc for t_ in x.targets)]
+        first_literal = ainit[0].value if len(ainit) == 1 else None
+        ctx.holds('R20d', u, st, 'table is the list filled in __init__ from the calculator\'s own string',
+                  construct='line-start table: source')
+    else:
+        ctx.unknown('R20d', u, init, 'line-start table is neither list(<generator>(s)) nor a list filled in __init__',
                     construct='line-start table')
         return
-    st, gcall = table
-    sparam = init.args.args[1].arg
-    ctx.decide('R20d', len(gcall.args) == 1 and unparse(gcall.args[0]) == sparam, u, st,
-               'table built from the calculator\'s own string', 'the line-start table is built from %s, not '
-               'from the string given to the calculator' % short(gcall), construct='line-start table: source')
-    g = gens[call_name(gcall)]
-    xp = g.args.args[0].arg
-    loops = [l for l in g.body if isinstance(l, ast.While)]
+    loops = [l for l in body_stmts if isinstance(l, ast.While)]
     if len(loops) != 1:
-        ctx.unknown('R20d', u, g, 'generator is not one while loop', construct='line-start generator')
+        ctx.unknown('R20d', u, g, 'the table is not filled by one while loop', construct='line-start generator')
         return
     loop = loops[0]
-    mk = lambda: symex.Walker(is_sink=lambda n: True, sink_types=(ast.Yield,), want_exits=True,
+    mk = lambda: symex.Walker(is_sink=is_emit, sink_types=emit_types, want_exits=True,
                               pure=('find', 'index'), trace=True)
-    pre = mk().run_block(g.body[:g.body.index(loop)])
+    pre = mk().run_block(body_stmts[:body_stmts.index(loop)])
     first = [c for c in pre if c.kind == 'call']
-    ok0 = len(first) == 1 and isinstance(first[0].sub.value, ast.Constant) and first[0].sub.value.value == 0
+    if first_literal is not None:
+        ok0 = not first and isinstance(first_literal, ast.List) and len(first_literal.elts) == 1 and \
+            isinstance(first_literal.elts[0], ast.Constant) and first_literal.elts[0].value == 0
+    else:
+        ok0 = len(first) == 1 and isinstance(emitted(first[0].sub), ast.Constant) and emitted(first[0].sub).value == 0
     ctx.decide('R20d', ok0, u, first[0].node if first else g, 'the first line starts at 0',
                'the generator does not start the table with position 0', construct='line-start generator: first entry')
     ends = [c for c in pre if c.kind == 'end']
@@ -301,7 +336,7 @@ def _r20d(ctx, u, init):
                     return p_ == val
         return None
     bad, unk = None, None
-    y0 = ys[0].sub.value
+    y0 = emitted(ys[0].sub)
     # shape S1: the loop variable is the previous line start; the body searches from it
     if isinstance(y0, ast.BinOp) and isinstance(y0.op, ast.Add) and is_find(y0.left) and \
             isinstance(y0.right, ast.Constant) and y0.right.value == 1 and len(y0.left.args) == 2 and \
@@ -309,12 +344,12 @@ def _r20d(ctx, u, init):
         kv = y0.left.args[1].id
         ftxt = unparse(y0.left)
         for c in ys:
-            if unparse(c.sub.value) != unparse(y0):
-                bad = 'yields %s on one path and %s on another' % (short(y0), short(c.sub.value))
+            if unparse(emitted(c.sub)) != unparse(y0):
+                bad = 'records %s on one path and %s on another' % (short(y0), short(emitted(c.sub)))
             elif found_fact(c, ftxt) is not True:
                 bad = 'yields without having excluded the not-found result -1'
         for c in exits:
-            nyield = sum(1 for n_, s_ in c.env.get('#trace', ()) if isinstance(n_, ast.Yield))
+            nyield = sum(1 for n_, s_ in c.env.get('#trace', ()) if is_emit(n_))
             ff = found_fact(c, ftxt)
             if ff is True and nyield != 1:
                 bad = ('on the path [%s] a newline was found but %d line starts are recorded: a newline '
@@ -351,7 +386,7 @@ def _r20d(ctx, u, init):
                           'starts no line (e.g. a newline at the very end of the string), positions after '
                           'it are reported on the previous line' % ' and '.join(short(a) for a in extra))
         for c in exits:
-            nyield = sum(1 for n_, s_ in c.env.get('#trace', ()) if isinstance(n_, ast.Yield))
+            nyield = sum(1 for n_, s_ in c.env.get('#trace', ()) if is_emit(n_))
             if nyield != 1 or c.kind not in ('end', 'continue'):
                 bad = bad or 'an iteration records %d line starts / leaves the loop early' % nyield
             nv = c.env.get(kv)
